@@ -103,20 +103,13 @@ pub fn kruskal(store: &LpgStore, weight_property: Option<&str>) -> MstResult {
 
     // Collect all edges with weights (treating as undirected)
     let mut edges: Vec<(f64, NodeId, NodeId, EdgeId)> = Vec::new();
-    let mut seen_edges: std::collections::HashSet<(usize, usize)> =
-        std::collections::HashSet::new();
-
     for &node in &nodes {
-        let i = *node_to_idx.get(&node).unwrap();
         for (neighbor, edge_id) in store.edges_from(node, Direction::Outgoing) {
-            if let Some(&j) = node_to_idx.get(&neighbor) {
-                // For undirected: only add each edge once
-                let key = if i < j { (i, j) } else { (j, i) };
-                if !seen_edges.contains(&key) {
-                    seen_edges.insert(key);
-                    let weight = extract_weight(store, edge_id, weight_property);
-                    edges.push((weight, node, neighbor, edge_id));
-                }
+            if node_to_idx.contains_key(&neighbor) {
+                // Every stored edge is a candidate (each is listed once, at its source):
+                // with parallel edges the lightest one must be available to the sort
+                let weight = extract_weight(store, edge_id, weight_property);
+                edges.push((weight, node, neighbor, edge_id));
             }
         }
     }
